@@ -35,6 +35,14 @@ func (r *Response) Result() (any, error) {
 	case resp := <-r.result:
 		return resp, nil
 	case <-ctx.Done():
+		// Both can be ready by now, e.g. when the reply came before Result
+		// was called and this goroutine was not scheduled for longer than
+		// the timeout: a reply that is there wins.
+		select {
+		case resp := <-r.result:
+			return resp, nil
+		default:
+		}
 		return nil, ctx.Err()
 	}
 }
